@@ -397,12 +397,12 @@ class Sem:
         if isinstance(tgt, tuple) and tgt[0] == 'direct':
             sub = m.states[tgt[1]].sub
             explicit = {sub.region_of(n): n for n in tgt[2]}
-            s.enter_machine(sub, s.pay, explicit, ev, own_pay=ANY)
+            s.enter_machine(sub, s.pay, explicit, ev)
             cm['active'][r] = tname
         elif isinstance(tgt, tuple) and tgt[0] == 'entry':
             sub = m.states[tgt[1]].sub
             explicit = {sub.region_of(tgt[2]): tgt[2]}
-            s.enter_machine(sub, s.pay, explicit, ev, own_pay=ANY)
+            s.enter_machine(sub, s.pay, explicit, ev)
             cm['active'][r] = tname
             # second part of the compound transition: the inner transition triggered by the same event
             s.process_in_machine(sub, ev, False)
